@@ -662,51 +662,51 @@ theorem trInv_step (fx : Fix) (s : Stats) (t : Tr) (hi : TrInv s t) (e : Event)
     | addInflight x d =>
       by_cases h : x = c
       · subst h
-        simp only [inflStep, queuedStep, Tr.step, if_true]; omega
+        simp only [inflStep, queuedStep, Tr.step, if_true]; refine ⟨?_, ?_, ?_, ?_⟩ <;> (try simp) <;> omega
       · have h' : ¬ c = x := fun e => h e.symm
-        simp only [inflStep, queuedStep, Tr.step, h, h', if_false]; omega
+        simp only [inflStep, queuedStep, Tr.step, h, h', if_false]; refine ⟨?_, ?_, ?_, ?_⟩ <;> (try simp) <;> omega
     | decInflight x d =>
       simp only at hwf
       by_cases h : x = c
       · subst h
         simp only [inflStep, queuedStep, Tr.step, if_true]
         by_cases hz : t.infl x = 0
-        · simp only [hz, beq_self_eq_true, if_true]; omega
+        · simp only [hz, beq_self_eq_true, if_true]; refine ⟨?_, ?_, ?_, ?_⟩ <;> (try simp) <;> omega
         · have hz' : (t.infl x == 0) = false := by simpa using hz
-          simp only [hz', Bool.false_eq_true, if_false]; omega
+          simp only [hz', Bool.false_eq_true, if_false]; refine ⟨?_, ?_, ?_, ?_⟩ <;> (try simp) <;> omega
       · have h' : ¬ c = x := fun e => h e.symm
-        simp only [inflStep, queuedStep, Tr.step, h, h', if_false]; omega
+        simp only [inflStep, queuedStep, Tr.step, h, h', if_false]; refine ⟨?_, ?_, ?_, ?_⟩ <;> (try simp) <;> omega
     | addQueueLen x d =>
       by_cases h : x = c
       · subst h
-        simp only [inflStep, queuedStep, Tr.step, if_true]; omega
+        simp only [inflStep, queuedStep, Tr.step, if_true]; refine ⟨?_, ?_, ?_, ?_⟩ <;> (try simp) <;> omega
       · have h' : ¬ c = x := fun e => h e.symm
-        simp only [inflStep, queuedStep, Tr.step, h, h', if_false]; omega
+        simp only [inflStep, queuedStep, Tr.step, h, h', if_false]; refine ⟨?_, ?_, ?_, ?_⟩ <;> (try simp) <;> omega
     | decQueueLen x d =>
       simp only at hwf
       by_cases h : x = c
       · subst h
         simp only [inflStep, queuedStep, Tr.step, if_true]
         by_cases hz : t.queued x = 0
-        · simp only [hz, beq_self_eq_true, if_true]; omega
+        · simp only [hz, beq_self_eq_true, if_true]; refine ⟨?_, ?_, ?_, ?_⟩ <;> (try simp) <;> omega
         · have hz' : (t.queued x == 0) = false := by simpa using hz
-          simp only [hz', Bool.false_eq_true, if_false]; omega
+          simp only [hz', Bool.false_eq_true, if_false]; refine ⟨?_, ?_, ?_, ?_⟩ <;> (try simp) <;> omega
       · have h' : ¬ c = x := fun e => h e.symm
-        simp only [inflStep, queuedStep, Tr.step, h, h', if_false]; omega
+        simp only [inflStep, queuedStep, Tr.step, h, h', if_false]; refine ⟨?_, ?_, ?_, ?_⟩ <;> (try simp) <;> omega
     | sessionTerminated x r =>
       by_cases h : x = c
       · subst h
-        simp only [inflStep, queuedStep, Tr.step, if_true]; omega
+        simp only [inflStep, queuedStep, Tr.step, if_true]; refine ⟨?_, ?_, ?_, ?_⟩ <;> (try simp) <;> omega
       · have h' : ¬ c = x := fun e => h e.symm
-        simp only [inflStep, queuedStep, Tr.step, h, h', if_false]; omega
-    | packetReceived x tt b => simp only [inflStep, queuedStep, Tr.step]; omega
-    | packetSent x tt b => simp only [inflStep, queuedStep, Tr.step]; omega
-    | messageReceived x q => simp only [inflStep, queuedStep, Tr.step]; omega
-    | messageSent x q => simp only [inflStep, queuedStep, Tr.step]; omega
-    | messageDropped x q r => simp only [inflStep, queuedStep, Tr.step]; omega
-    | clientConnected x => simp only [inflStep, queuedStep, Tr.step]; omega
-    | clientDisconnected x => simp only [inflStep, queuedStep, Tr.step]; omega
-    | sessionActive b => simp only [inflStep, queuedStep, Tr.step]; omega
+        simp only [inflStep, queuedStep, Tr.step, h, h', if_false]; refine ⟨?_, ?_, ?_, ?_⟩ <;> (try simp) <;> omega
+    | packetReceived x tt b => simp only [inflStep, queuedStep, Tr.step]; refine ⟨?_, ?_, ?_, ?_⟩ <;> (try simp) <;> omega
+    | packetSent x tt b => simp only [inflStep, queuedStep, Tr.step]; refine ⟨?_, ?_, ?_, ?_⟩ <;> (try simp) <;> omega
+    | messageReceived x q => simp only [inflStep, queuedStep, Tr.step]; refine ⟨?_, ?_, ?_, ?_⟩ <;> (try simp) <;> omega
+    | messageSent x q => simp only [inflStep, queuedStep, Tr.step]; refine ⟨?_, ?_, ?_, ?_⟩ <;> (try simp) <;> omega
+    | messageDropped x q r => simp only [inflStep, queuedStep, Tr.step]; refine ⟨?_, ?_, ?_, ?_⟩ <;> (try simp) <;> omega
+    | clientConnected x => simp only [inflStep, queuedStep, Tr.step]; refine ⟨?_, ?_, ?_, ?_⟩ <;> (try simp) <;> omega
+    | clientDisconnected x => simp only [inflStep, queuedStep, Tr.step]; refine ⟨?_, ?_, ?_, ?_⟩ <;> (try simp) <;> omega
+    | sessionActive b => simp only [inflStep, queuedStep, Tr.step]; refine ⟨?_, ?_, ?_, ?_⟩ <;> (try simp) <;> omega
   refine ⟨fun c => ?_, fun c => ?_, fun c => (key c).2.2.1, fun c => (key c).2.2.2⟩
   · rw [infl_step, h1 c]; exact (key c).1
   · rw [queued_step, h2 c]; exact (key c).2.1
@@ -718,5 +718,156 @@ theorem trInv_run (fx : Fix) (s : Stats) (t : Tr) (hi : TrInv s t) (log : List E
   | cons e r ih =>
     obtain ⟨h1, h2⟩ := hwf
     exact ih _ _ (trInv_step fx s t hi e h1) h2
+
+/-! ## connection / session gauges against the session life-cycle -/
+
+def isLifecycle : Event → Bool
+  | .clientConnected _ | .clientDisconnected _ | .sessionActive _ | .sessionTerminated _ _ => true
+  | _ => false
+
+/-- what the broker does to a session, with the statsManager calls each makes, in call order
+    (registerClient; internalClose = unregisterClient then clientDisconnected; sessionExpireCheck / TerminateSession) -/
+inductive Act
+  | connectNew (cid : String)          -- no stored session
+  | connectFresh (cid : String)        -- stored offline session discarded (clean start / expired)
+  | connectResume (cid : String)       -- stored offline session resumed
+  | closeKeep (cid : String)           -- connection ends, session stored
+  | closeEnd (cid : String)            -- connection ends, session removed
+  | endOffline (cid : String) (r : TermReason)   -- offline session expires / is terminated through the API
+  | other (e : Event)                  -- any call that is not a life-cycle call
+
+def Act.events : Act → List Event
+  | .connectNew c => [.clientConnected c, .sessionActive true]
+  | .connectFresh c => [.clientConnected c, .sessionTerminated c .takenOver, .sessionActive true]
+  | .connectResume c => [.clientConnected c, .sessionActive false]
+  | .closeKeep c => [.clientDisconnected c]
+  | .closeEnd c => [.sessionTerminated c .normal, .clientDisconnected c]
+  | .endOffline c r => [.sessionTerminated c r]
+  | .other e => [e]
+
+/-- the session table: client id ↦ online? -/
+abbrev Tbl := List (String × Bool)
+
+def Act.ok (tbl : Tbl) : Act → Prop
+  | .connectNew c => AL.get c tbl = none
+  | .connectFresh c => AL.get c tbl = some false
+  | .connectResume c => AL.get c tbl = some false
+  | .closeKeep c => AL.get c tbl = some true
+  | .closeEnd c => AL.get c tbl = some true
+  | .endOffline c _ => AL.get c tbl = some false
+  | .other e => isLifecycle e = false
+
+def Act.next (tbl : Tbl) : Act → Tbl
+  | .connectNew c => AL.set c true tbl
+  | .connectFresh c => AL.set c true tbl
+  | .connectResume c => AL.set c true tbl
+  | .closeKeep c => AL.set c false tbl
+  | .closeEnd c => AL.del c tbl
+  | .endOffline c _ => AL.del c tbl
+  | .other _ => tbl
+
+def Valid (tbl : Tbl) : List Act → Prop
+  | [] => True
+  | a :: r => a.ok tbl ∧ Valid (a.next tbl) r
+
+def Tbl.run (tbl : Tbl) (acts : List Act) : Tbl := acts.foldl Act.next tbl
+
+def count (tbl : Tbl) (b : Bool) : Nat :=
+  match tbl with
+  | [] => 0
+  | p :: r => (if p.2 = b then 1 else 0) + count r b
+
+theorem count_del (tbl : Tbl) (hn : AL.NodupKeys tbl) (c : String) (b : Bool) :
+    count (AL.del c tbl) b + (if AL.get c tbl = some b then 1 else 0) = count tbl b := by
+  induction tbl with
+  | nil => simp [AL.del, count, AL.get]
+  | cons p r ih =>
+    obtain ⟨k, v⟩ := p
+    have hn' : AL.NodupKeys r := by
+      simp only [AL.NodupKeys, AL.keys, List.map_cons, List.nodup_cons] at hn ⊢; exact hn.2
+    by_cases e : k = c
+    · subst e
+      have hk : AL.get k r = none := by
+        rw [AL.get_none_iff]
+        simp only [AL.NodupKeys, AL.keys, List.map_cons, List.nodup_cons] at hn
+        exact hn.1
+      have h1 : AL.del k ((k, v) :: r) = AL.del k r := by simp [AL.del]
+      rw [h1, AL.del_eq_self hk]
+      simp only [AL.get, if_true, count, Option.some.injEq]
+      omega
+    · have h1 : AL.del c ((k, v) :: r) = (k, v) :: AL.del c r := by simp [AL.del, e]
+      rw [h1]
+      simp only [count, AL.get, e, if_false]
+      have := ih hn'
+      omega
+
+theorem count_set (tbl : Tbl) (c : String) (v b : Bool) :
+    count (AL.set c v tbl) b = count (AL.del c tbl) b + (if v = b then 1 else 0) := by
+  simp only [AL.set, count]; omega
+
+structure ConnInv (s : Stats) (tbl : Tbl) : Prop where
+  nodup : AL.NodupKeys tbl
+  active : s.conn.active = count tbl true
+  inactive : s.conn.inactive = count tbl false
+
+theorem conn_of_nonlifecycle (fx : Fix) (s : Stats) (e : Event) (h : isLifecycle e = false) : (s.apply fx e).conn = s.conn := by
+  cases e <;> simp [isLifecycle] at h <;> simp only [Stats.apply] <;> (try split) <;> simp [Stats.updClient]
+
+theorem connInv_act (fx : Fix) (s : Stats) (tbl : Tbl) (hi : ConnInv s tbl) (a : Act) (hok : a.ok tbl) :
+    ConnInv (s.run fx a.events) (a.next tbl) := by
+  obtain ⟨hn, ha, hb⟩ := hi
+  cases a with
+  | connectNew c =>
+    simp only [Act.ok] at hok
+    have d1 := count_del tbl hn c true
+    have d2 := count_del tbl hn c false
+    refine ⟨AL.nodupKeys_set c true hn, ?_, ?_⟩ <;>
+      simp [Act.events, Act.next, Stats.run, Stats.apply, count_set, hok] at d1 d2 ⊢ <;> omega
+  | connectFresh c =>
+    simp only [Act.ok] at hok
+    have d1 := count_del tbl hn c true
+    have d2 := count_del tbl hn c false
+    refine ⟨AL.nodupKeys_set c true hn, ?_, ?_⟩ <;>
+      simp [Act.events, Act.next, Stats.run, Stats.apply, count_set, hok] at d1 d2 ⊢ <;> omega
+  | connectResume c =>
+    simp only [Act.ok] at hok
+    have d1 := count_del tbl hn c true
+    have d2 := count_del tbl hn c false
+    refine ⟨AL.nodupKeys_set c true hn, ?_, ?_⟩ <;>
+      simp [Act.events, Act.next, Stats.run, Stats.apply, count_set, hok] at d1 d2 ⊢ <;> omega
+  | closeKeep c =>
+    simp only [Act.ok] at hok
+    have d1 := count_del tbl hn c true
+    have d2 := count_del tbl hn c false
+    refine ⟨AL.nodupKeys_set c false hn, ?_, ?_⟩ <;>
+      simp [Act.events, Act.next, Stats.run, Stats.apply, count_set, hok] at d1 d2 ⊢ <;> omega
+  | closeEnd c =>
+    simp only [Act.ok] at hok
+    have d1 := count_del tbl hn c true
+    have d2 := count_del tbl hn c false
+    refine ⟨AL.nodupKeys_del c hn, ?_, ?_⟩ <;>
+      simp [Act.events, Act.next, Stats.run, Stats.apply, hok] at d1 d2 ⊢ <;> omega
+  | endOffline c r =>
+    simp only [Act.ok] at hok
+    have d1 := count_del tbl hn c true
+    have d2 := count_del tbl hn c false
+    refine ⟨AL.nodupKeys_del c hn, ?_, ?_⟩ <;>
+      cases r <;> simp [Act.events, Act.next, Stats.run, Stats.apply, hok] at d1 d2 ⊢ <;> omega
+  | other e =>
+    simp only [Act.ok] at hok
+    have := conn_of_nonlifecycle fx s e hok
+    exact ⟨hn, by simpa [Act.events, Act.next, Stats.run, this] using ha, by simpa [Act.events, Act.next, Stats.run, this] using hb⟩
+
+theorem run_append (fx : Fix) (s : Stats) (l1 l2 : List Event) : s.run fx (l1 ++ l2) = (s.run fx l1).run fx l2 := by
+  simp [Stats.run, List.foldl_append]
+
+theorem connInv_run (fx : Fix) (s : Stats) (tbl : Tbl) (hi : ConnInv s tbl) (acts : List Act) (hv : Valid tbl acts) :
+    ConnInv (s.run fx (acts.flatMap Act.events)) (Tbl.run tbl acts) := by
+  induction acts generalizing s tbl with
+  | nil => simpa [Stats.run, Tbl.run] using hi
+  | cons a r ih =>
+    obtain ⟨h1, h2⟩ := hv
+    simp only [List.flatMap_cons, run_append, Tbl.run, List.foldl_cons]
+    exact ih _ _ (connInv_act fx s tbl hi a h1) h2
 
 end GmqttVerif.Stats
